@@ -60,20 +60,39 @@ def lex(src):
 
 # ---------------------------------------------------------------- source extraction
 
-def struct_fields(src, name):
+def struct_fields(src, name, skip_unknown=False):
+    """fields of the struct with their fragment types; with skip_unknown, fields of types outside the
+    fragment are left out (a method that touches one is then an error)"""
     m = re.search(r"pub struct %s\s*\{(.*?)\n\}" % re.escape(name), src, re.S)
     if not m:
         raise GenError("struct %s not found" % name)
     body = re.sub(r"///[^\n]*|//[^\n]*|#\[[^\]]*\]", "", m.group(1))
     fields = []
-    for part in body.split(","):
+    # split on commas outside <...> and (...)
+    parts, depth, cur = [], 0, ""
+    for ch in body:
+        if ch in "<(":
+            depth += 1
+        elif ch in ">)":
+            depth -= 1
+        if ch == "," and depth == 0:
+            parts.append(cur)
+            cur = ""
+        else:
+            cur += ch
+    parts.append(cur)
+    for part in parts:
         part = part.strip()
         if not part:
             continue
         fm = re.match(r"(?:pub\s+)?([a-z_][a-z0-9_]*)\s*:\s*(.+)$", part, re.S)
         if not fm:
             raise GenError("cannot read field declaration %r of %s" % (part, name))
-        fields.append((fm.group(1), norm_type(fm.group(2).strip())))
+        try:
+            fields.append((fm.group(1), norm_type(fm.group(2).strip())))
+        except GenError:
+            if not skip_unknown:
+                raise
     return fields
 
 
@@ -87,6 +106,10 @@ def norm_type(t):
         return "opt_u64"
     if t == "Result<(),ValidationError>":
         return "result_unit"
+    if re.match(r"^[A-Z][A-Za-z0-9]*$", t):
+        return "id"            # an opaque value (a key, a commitment content): an identity in the model
+    if re.match(r"^Option<[A-Z][A-Za-z0-9]*>$", t):
+        return "opt_id"
     raise GenError("type %s is outside the fragment" % t)
 
 
@@ -225,7 +248,7 @@ class P:
                 stmts.append(("return", e))
             elif self.at("if"):
                 e = self.if_expr()
-                if e[0] in ("if_stmt", "iflet_stmt"):
+                if e[0] in ("if_stmt", "iflet_stmt", "ifelse_stmt"):
                     stmts.append(e)
                 elif self.at("}") or self.at(";"):
                     tail = e
@@ -273,14 +296,33 @@ class P:
                 a = (a[0] + [("expr", a[1])], None)
             return ("if_stmt", c, a)
         self.eat("else")
+        if self.at("if"):
+            inner = self.if_expr()
+            b = ([inner], None) if inner[0] in ("if_stmt", "iflet_stmt", "ifelse_stmt") else ([], inner)
+            if b[1] is None:
+                return ("ifelse_stmt", c, a, b)
+            return ("if", c, a, b)
         b = self.block()
+        if a[1] is None and b[1] is None:
+            return ("ifelse_stmt", c, a, b)
         return ("if", c, a, b)
 
     def expr_norange(self):
         return self.expr()
 
     def expr(self):
-        return self.cmp()
+        a = self.conj()
+        while self.at("||"):
+            self.eat("||")
+            a = ("bin", "||", a, self.conj())
+        return a
+
+    def conj(self):
+        a = self.cmp()
+        while self.at("&&"):
+            self.eat("&&")
+            a = ("bin", "&&", a, self.cmp())
+        return a
 
     def cmp(self):
         a = self.add()
@@ -444,6 +486,8 @@ class Gen:
         if k == "bool":
             return [], e[1], "bool"
         if k == "var":
+            if e[1] == "None":
+                return [], "None", want or "opt_id"
             if e[1] not in env:
                 raise GenError("unknown variable %s" % e[1])
             return [], e[1], env[e[1]]
@@ -480,7 +524,7 @@ class Gen:
             raise GenError("`?` on %r is outside the fragment" % (inner,))
         if k == "field":
             if e[1] != ("var", "self") or e[2] not in self.fields:
-                raise GenError("field access %r is outside the fragment" % (e,))
+                raise GenError("field access %r is outside the fragment (or the field has a type outside it)" % (e,))
             return [], "(%s self)" % self.fname(e[2]), self.fields[e[2]]
         if k == "as":
             b, c, t = self.expr(e[1], env)
@@ -506,6 +550,11 @@ class Gen:
                 return b1 + b2, "(N.%s %s %s)" % (e[1], a, c), ta
             if e[1] == "Ok" and e[2] == [("unit",)]:
                 return [], "true", "result_unit"
+            if e[1] == "Some" and len(e[2]) == 1:
+                b1, a, ta = self.expr(e[2][0], env)
+                if ta != "id":
+                    raise GenError("Some(..) of a %s is outside the fragment" % ta)
+                return b1, "(Some %s)" % a, "opt_id"
             raise GenError("call of %s is outside the fragment" % e[1])
         if k == "mcall":
             recv, name, args = e[1], e[2], e[3]
@@ -529,6 +578,16 @@ class Gen:
                 x = self.fresh()
                 return [(x, "gen_%s prof self" % name)], x, self.methods[name]["ret"]
             raise GenError("method call .%s(..) is outside the fragment" % name)
+        if k == "bin" and e[1] in ("||", "&&"):
+            b1, a, ta = self.expr(e[2], env)
+            b2, c, tc = self.expr(e[3], env)
+            if ta != "bool" or tc != "bool":
+                raise GenError("%s on %s and %s" % (e[1], ta, tc))
+            if b2:
+                # Rust evaluates the right operand only if needed; hoisting an operation that can panic
+                # out of it would change the meaning
+                raise GenError("an operation that can panic on the right of %s is outside the fragment" % e[1])
+            return b1, "(%s %s %s)" % (a, e[1], c), "bool"
         if k == "bin":
             op = e[1]
             b1, a, ta = self.expr(e[2], env, want if op in "+-*/%" else None)
@@ -618,12 +677,10 @@ class Gen:
         s, rest = ss[0], ss[1:]
         if s[0] == "return":
             return self.ret_value(s[1], env)
-        if s[0] == "if_stmt":
+        if s[0] == "if_stmt" and not self.assigned(s[2][0]):
             b, c, t = self.expr(s[1], env)
             if t != "bool":
                 raise GenError("if on a non-boolean")
-            if self.assigned(s[2][0]):
-                raise GenError("an if without else that assigns is outside the fragment")
             # the block, then whatever follows the if (a `return` inside the block drops it)
             inside = self.stmts(s[2][0] + rest, env, k)
             return self.emit_binds(b, "if %s\nthen (%s)\nelse (%s)" % (c, inside, self.stmts(rest, env, k)))
@@ -637,6 +694,47 @@ class Gen:
             env_a[s[1]] = "u64"
             inside = self.stmts(s[3][0] + rest, env_a, k)
             return self.emit_binds(b, "match %s with\n| Some %s => (%s)\n| None => (%s)\nend" % (c, s[1], inside, self.stmts(rest, env, k)))
+        if s[0] == "expr" and s[1][0] == "macro" and s[1][1] in ("debug", "trace", "info", "warn"):
+            return self.stmts(rest, env, k)          # logging: no effect on the state
+        if s[0] == "expr" and s[1][0] == "macro" and s[1][1] in ("assert", "assert_eq", "assert_ne"):
+            name, args = s[1][1], s[1][2]
+            exprs = [P(a + [("eof", "")]).expr() for a in args[: 1 if name == "assert" else 2]]
+            if name == "assert":
+                b, c, t = self.expr(exprs[0], env)
+                if t != "bool":
+                    raise GenError("assert! on a non-boolean")
+            else:
+                b1, a1, t1 = self.expr(exprs[0], env)
+                b2, a2, t2 = self.expr(exprs[1], env, t1)
+                if exprs[0][0] == "lit" and exprs[0][2] is None:
+                    t1 = t2
+                if t1 != t2 or t1 not in INT:
+                    raise GenError("%s! on %s and %s" % (name, t1, t2))
+                b, c = b1 + b2, ("(%s =? %s)" if name == "assert_eq" else "(negb (%s =? %s))") % (a1, a2)
+            return self.emit_binds(b, "if %s\nthen (%s)\nelse Trap" % (c, self.stmts(rest, env, k)))
+        if s[0] in ("if_stmt", "ifelse_stmt") and (self.assigned(s[2][0]) or (s[0] == "ifelse_stmt" and self.assigned(s[3][0]))):
+            # branches that assign: the assigned variables are the value of the statement
+            carried = self.assigned(s[2][0] + (s[3][0] if s[0] == "ifelse_stmt" else []))
+            for blk in ([s[2]] + ([s[3]] if s[0] == "ifelse_stmt" else [])):
+                if any(x[0] == "return" for x in blk[0]):
+                    raise GenError("a branch that both assigns and returns is outside the fragment")
+            for x in carried:
+                if x != "self" and x not in env:
+                    raise GenError("branch assigns unknown variable %s" % x)
+            tup = carried[0] if len(carried) == 1 else "(" + ", ".join(carried) + ")"
+            pat = carried[0] if len(carried) == 1 else "'(" + ", ".join(carried) + ")"
+            b, c, t = self.expr(s[1], env)
+            if t != "bool":
+                raise GenError("if on a non-boolean")
+            then_t = self.stmts(s[2][0], env, lambda e2: "Val %s" % tup)
+            else_t = self.stmts(s[3][0], env, lambda e2: "Val %s" % tup) if s[0] == "ifelse_stmt" else "Val %s" % tup
+            return self.emit_binds(b, "%s <- (if %s\nthen (%s)\nelse (%s)) ;;\n%s" % (pat, c, then_t, else_t, self.stmts(rest, env, k)))
+        if s[0] == "ifelse_stmt":
+            b, c, t = self.expr(s[1], env)
+            if t != "bool":
+                raise GenError("if on a non-boolean")
+            return self.emit_binds(b, "if %s\nthen (%s)\nelse (%s)" % (
+                c, self.stmts(s[2][0] + rest, env, k), self.stmts(s[3][0] + rest, env, k)))
         if s[0] == "expr" and s[1][0] == "macro":
             name, args = s[1][1], s[1][2]
             if name == "policy_err" and len(args) >= 2 and args[0] == [("id", "self")] and len(args[1]) == 1 and args[1][0][0] == "str":
@@ -659,7 +757,18 @@ class Gen:
                     raise GenError("assignment to unknown variable %s" % tgt[1])
                 b, c, t = self.expr(rhs, env, env[tgt[1]])
                 return self.emit_binds(b, "let %s := %s in\n%s" % (tgt[1], c, self.stmts(rest, env, k)))
+            if tgt[0] == "field" and tgt[1] == ("var", "self") and rhs[0] == "mcall" and rhs[2] == "take" and not rhs[3] \
+                    and rhs[1][0] == "field" and rhs[1][1] == ("var", "self"):
+                # self.a = self.b.take();  : a gets b's value, b becomes None
+                src_f = rhs[1][2]
+                if self.fields.get(src_f) != "opt_id" or self.fields.get(tgt[2]) != "opt_id":
+                    raise GenError(".take() between fields that are not Option<opaque> is outside the fragment")
+                x = self.fresh()
+                return "let %s := (%s self) in\nlet self := %s in\nlet self := %s in\n%s" % (
+                    x, self.fname(src_f), self.setter(src_f, "None"), self.setter(tgt[2], x), self.stmts(rest, env, k))
             if tgt[0] == "field" and tgt[1] == ("var", "self"):
+                if tgt[2] not in self.fields:
+                    raise GenError("self.%s has a type outside the fragment" % tgt[2])
                 b, c, t = self.expr(rhs, env, self.fields[tgt[2]])
                 if t != self.fields[tgt[2]]:
                     raise GenError("self.%s: %s assigned a %s" % (tgt[2], self.fields[tgt[2]], t))
@@ -750,8 +859,8 @@ class Gen:
         env = {x: t for x, t in m["params"]}
         self.cur = m
         rt = {"u64": "N", "usize": "N", "u32": "N", "bool": "bool", "unit": "unit", "vec": "list N", "result_unit": "bool"}[m["ret"]]
-        params = " ".join("(%s : %s)" % (x, {"bool": "bool", "vec": "list N", "opt_u64": "option N"}.get(t, "N")) for x, t in m["params"])
-        res = "(%s * %s)" % (self.struct, rt) if m["selfmode"] == "mut" else rt
+        params = " ".join("(%s : %s)" % (x, {"bool": "bool", "vec": "list N", "opt_u64": "option N", "opt_id": "option N"}.get(t, "N")) for x, t in m["params"])
+        res = ("(%s * %s)" % (self.struct, rt) if m["ret"] != "unit" else self.struct) if m["selfmode"] == "mut" else rt
         self.tmp = 0
         self.policy_used = []
         body = self.block_value(m["body"], env, m)
@@ -833,7 +942,34 @@ def generate_payments(repo):
     return {"translated": ["SimpleValidator::validate_payment_balance"], "policy_fields": list(g.policy_used)}
 
 
+def generate_enforcement(repo):
+    path = os.path.join(repo, "vls-core", "src", "policy", "validator.rs")
+    src = open(path).read()
+    names = ["set_next_counterparty_commit_num", "set_next_counterparty_revoke_num"]
+    fields = struct_fields(src, "EnforcementState", skip_unknown=True)
+    methods, texts = {}, {}
+    for n in names:
+        texts[n] = fn_source(src, "EnforcementState", n)
+        methods[n] = P(lex(texts[n])).fn()
+    g = Gen("res", fields, methods)
+    g.field_list = fields
+    tmap = {"u64": "N", "usize": "N", "u32": "N", "bool": "bool", "vec": "list N", "opt_id": "option N", "id": "N"}
+    out = ["Record res := mk_res {\n%s\n}." % ";\n".join("  res_%s : %s" % (f, tmap[t]) for f, t in fields)]
+    for n in names:
+        out.append("(* %s\n%s *)\n%s" % (n, "\n".join("   " + l for l in texts[n].strip().replace("(*", "( *").replace("*)", "* )").splitlines()),
+                                            g.method(methods[n])))
+    text = ("(** GENERATED by tools/gen_rustfn.py from vls-core/src/policy/validator.rs (struct EnforcementState: the\n"
+            "    fields whose types are inside the fragment; fn set_next_counterparty_commit_num, fn\n"
+            "    set_next_counterparty_revoke_num) - do not edit.  Keys and commitment contents are opaque identities. *)\n"
+            "From VLS Require Export Base.Rust.\n\n" + "\n\n".join(out) + "\n")
+    outp = os.path.join(ROOT, "coq", "theories", "Gen", "EnforcementGen.v")
+    if not os.path.exists(outp) or open(outp).read() != text:
+        open(outp, "w").write(text)
+    return {"translated": ["EnforcementState::" + n for n in names], "fields": [f for f, _ in fields]}
+
+
 if __name__ == "__main__":
     repo = sys.argv[1] if len(sys.argv) > 1 else "/repo"
     print(generate_velocity(repo))
     print(generate_payments(repo))
+    print(generate_enforcement(repo))
